@@ -38,7 +38,7 @@ def connected_hg(rng):
         if len(e) >= 2:
             h.add_edge(e, weight=2 if h.is_weighted() else None)
         i += len(new)
-    for _ in range(rng.randint(0, 6)):
+    for _ in range(rng.randint(0, 6) if rng.random() < 0.7 else 0):  # sometimes nothing extra: fewer than N-1 hyperedges
         s = min(rng.choice([2, 2, 3, 4, 5]), N)
         e = tuple(sorted(rng.sample(nodes, s)))
         h.add_edge(e, weight=3 if h.is_weighted() else None)
@@ -75,7 +75,9 @@ def walk_case(ctx, rng, idx):
         e = rng.choice(es)
         w = h.get_weight(e)
         h.remove_edge(e)
-        if h.is_connected() and len(h.get_nodes()) == N:
+        from ..mutate import connected_ref as _cr
+
+        if _cr(h) and len(h.get_nodes()) == N:
             ctx.event("re-evaluated-after-edge-removal")
             walk_eval(ctx, rng, idx, h, N)
 
@@ -88,7 +90,9 @@ def walk_eval(ctx, rng, idx, h, N):
     def wit(extra=None):
         return {"N": N, "edges": edges if len(edges) <= 40 else len(edges), "extra": repr(extra)[:800]}
 
-    if not h.is_connected():
+    from ..mutate import connected_ref
+
+    if not connected_ref(h):
         ctx.note("generator-produced-disconnected")
         return
     M = np.zeros((N, N))
